@@ -114,6 +114,21 @@ def run(ctx):
                     g = M.rand_grammar(ctx.rng, nN=ctx.rng.randint(1, 4))
             ops = gen_history(ctx.rng, g["nT"], kind, ctx.rng.randint(5, 40 if not quick else 18))
             jobs.append({"g": g, "sr": sr, "kind": kind, "ops": ops, "fresh_compare": True})
+        # structured families: symbols awaited together at one position and alone at a sibling position (shared left corners),
+        # cyclic left-corner graphs; the history visits the one-token contexts in a random order first
+        for k in range(n):
+            fam = k % 3
+            if fam == 0 or sr != "bool":
+                g = M.rand_sharedcorner_grammar(ctx.rng, boolean=(sr == "bool"))
+            elif fam == 1:
+                g = M.rand_mutual_leftrec_grammar(ctx.rng)
+            else:
+                g = M.rand_leftcorner_grammar(ctx.rng)
+            firsts = [[a] for a in range(g["nT"])]
+            ctx.rng.shuffle(firsts)
+            qop = "p_next" if kind not in ("earley", "rescaled", "icky") else "call"
+            ops = [[qop, c] for c in firsts] + [[qop, c + [ctx.rng.randrange(g["nT"])]] for c in firsts] + gen_history(ctx.rng, g["nT"], kind, 6)
+            jobs.append({"g": g, "sr": sr, "kind": kind, "ops": ops, "fresh_compare": True})
         res = run_lm(jobs, hashseed=ctx.rng.randint(0, 3))
         for job, r in zip(jobs, res):
             ctx.dist(f"{kind}:histories")
